@@ -36,8 +36,10 @@ for m in muts:
             print(name, "PATCH-DOES-NOT-APPLY", r.stderr[-200:]); continue
         tests = None
         if with_tests:
+            ptmp = tempfile.mkdtemp(prefix="vf-mut-tmp-", dir="/root/verif_scratch")
             t = subprocess.run(["/venv/bin/python", "-m", "pytest", "-q", "-p", "no:cacheprovider", "-n", "8", "-x", "--deselect", "test/test_interface.py::test_version_update_pypi"],
-                               cwd=wt, env=dict(os.environ, PYTHONPATH=wt), capture_output=True, text=True)
+                               cwd=wt, env=dict(os.environ, PYTHONPATH=wt, TMPDIR=ptmp), capture_output=True, text=True)
+            shutil.rmtree(ptmp, ignore_errors=True)
             tests = "pass" if t.returncode == 0 else "FAIL: " + t.stdout[-300:]
         for p in props:
             if props_filter and p not in props_filter:
